@@ -7,6 +7,7 @@
 From Verif Require Import Lib.Bytes Crash.Outcome Crash.IdModels Crash.IdProofs Crash.Sites
      Gen.GenSites Gen.GenVersions Crash.SitesSpec.
 From Coq Require Import Arith.
+From Verif Require Import Crash.Nesting.
 From Verif Require Import Json.Ast Json.Parse Json.Render Json.CanonC01 Json.CompactModelC01
      Json.CompactProofsC01 Json.CompactValidC01.
 
@@ -87,6 +88,11 @@ Proof. reflexivity. Qed.
 Example concrete_split : split_id 64%N (bs "@alice:example.org") = Ret (Some (bs "alice", bs "example.org")).
 Proof. reflexivity. Qed.
 
+(* the nesting guard of the repair of F48 reads input[i] only under the loop condition, also
+   after the extra i++ that skips the byte behind a backslash *)
+Theorem json_nesting_guard_total : forall input limit, json_nesting_exceeds input limit <> Crash.
+Proof. exact json_nesting_exceeds_total. Qed.
+
 Print Assumptions all_sites_classified.
 Print Assumptions no_stale_classification.
 Print Assumptions every_current_site_has_a_class.
@@ -107,3 +113,4 @@ Print Assumptions srv_target_total.
 Print Assumptions compact_json_total_on_valid.
 Print Assumptions compact_json_total_on_renderings.
 Print Assumptions compact_json_crashes_exactly_when_unsafe.
+Print Assumptions json_nesting_guard_total.
